@@ -45,6 +45,13 @@ type ChainInfo struct {
 	NeverSpent  []wire.OutPoint  // created, not spent on this chain
 	DoubleSpent []wire.OutPoint  // spent-later outpoints given a second, later spend
 	MultiOut    []chainhash.Hash // txids with >= 2 outputs (non-coinbase)
+
+	// ExtraPrev holds, per height, the scripts spent by transactions added to
+	// the served block after generation (needed to rebuild its filter).
+	ExtraPrev map[int32][][]byte
+	// Sweeps lists the blocks given several spends of distinct watched-able
+	// outpoints in separate transactions (sweep.go; empty for plain chains).
+	Sweeps []*SweepGroup
 }
 
 // Len is the tip height of the full chain.
@@ -158,6 +165,7 @@ func (c *ChainInfo) addDoubleSpends(rng *rand.Rand) {
 		c.Created[tx.TxHash()] = Loc{Height: h, TxIdx: len(c.Blocks[h].Transactions) - 1, NOut: 1}
 		c.DoubleSpent = append(c.DoubleSpent, op)
 	}
+	c.ExtraPrev = extraScripts
 	for h := range touched {
 		prev := append(append([][]byte(nil), c.Path[h].PrevScripts...), extraScripts[h]...)
 		f, err := builder.BuildBasicFilter(c.Blocks[h], prev)
